@@ -58,6 +58,7 @@ def case_real_space(ctx, rng, wd):
     if kind == "linear":
         frac = 0.3 + 0.4 * frac            # compact open cluster
     snap = gc.snapshot_from(cell, frac, np.ones(N, dtype=int))
+    gc.unwrap_in_place(rng, [snap], cell["H"], ppp)       # unwrapped coordinates
     pos = snap.positions
     A = None
     fld = make_field(rng, kind, pos, d)
